@@ -430,10 +430,29 @@ pub fn build_send<'a>(kind: MsgKind, tid: usize, seal: Sealing, payload: u16) ->
 pub fn build_response(tid: u8, error: bool, seal: RespSeal, fp: bool, salt: u16) -> Vec<u8> {
     let t = tid_bytes(tid as usize % NTID);
     let mut tlvs = vec![];
+    // messages name addresses of the universe in their attributes (a redirect to an alternate server,
+    // the reflexive address, where the response came from): naming an address is not hearing from it
+    use crate::refimpl::attrs::{ref_encode, Kind, RefAddr, RefVal};
+    let named = |k: usize| RefAddr::from_std(&addr(k % NCORE));
     if error {
-        tlvs.push(Tlv::new(0x0009, vec![0, 0, 4, (salt % 100) as u8, b'n', b'o']));
+        if salt % 3 == 0 {
+            tlvs.push(Tlv::new(0x0009, vec![0, 0, 3, 0, b't', b'r', b'y']));
+            tlvs.push(Tlv::new(0x8023, ref_encode(Kind::AlternateServer, &RefVal::Addr(named(salt as usize / 3)), &t).unwrap()));
+            if salt % 2 == 0 {
+                tlvs.push(Tlv::new(0x8003, b"alt.example.org".to_vec()));
+            }
+        } else {
+            tlvs.push(Tlv::new(0x0009, vec![0, 0, 4, (salt % 100) as u8, b'n', b'o']));
+        }
     } else {
-        tlvs.push(Tlv::new(0x0020, vec![0, 1, 0x21 ^ 0x12, 0x12 ^ 0x34, 0x21 ^ 192, 0x12, 0xa4 ^ 2, 0x42 ^ (salt as u8)]));
+        if salt % 2 == 1 {
+            tlvs.push(Tlv::new(0x0020, ref_encode(Kind::XorMappedAddress, &RefVal::Addr(named(salt as usize / 2)), &t).unwrap()));
+            // RESPONSE-ORIGIN / OTHER-ADDRESS (RFC 5780): plain address attributes
+            tlvs.push(Tlv::new(0x802b, ref_encode(Kind::AlternateServer, &RefVal::Addr(named(salt as usize / 2 + 1)), &t).unwrap()));
+            tlvs.push(Tlv::new(0x802c, ref_encode(Kind::AlternateServer, &RefVal::Addr(named(salt as usize / 2 + 3)), &t).unwrap()));
+        } else {
+            tlvs.push(Tlv::new(0x0020, vec![0, 1, 0x21 ^ 0x12, 0x12 ^ 0x34, 0x21 ^ 192, 0x12, 0xa4 ^ 2, 0x42 ^ (salt as u8)]));
+        }
     }
     let mut b = encode(if error { 3 } else { 2 }, 1, &t, &tlvs);
     match seal {
@@ -467,7 +486,14 @@ pub fn build_response(tid: u8, error: bool, seal: RespSeal, fp: bool, salt: u16)
 
 pub fn build_incoming(request: bool, tid: u8, salt: u16) -> Vec<u8> {
     let t = tid_bytes(tid as usize % NTID);
-    encode(if request { 0 } else { 1 }, 1, &t, &[Tlv::new(0x8022, format!("peer{salt}").into_bytes())])
+    let mut tlvs = vec![Tlv::new(0x8022, format!("peer{salt}").into_bytes())];
+    if salt % 4 == 1 {
+        use crate::refimpl::attrs::{ref_encode, Kind, RefAddr, RefVal};
+        let a = RefAddr::from_std(&addr(salt as usize / 4 % NCORE));
+        tlvs.push(Tlv::new(0x8023, ref_encode(Kind::AlternateServer, &RefVal::Addr(a.clone()), &t).unwrap()));
+        tlvs.push(Tlv::new(0x0012, ref_encode(Kind::XorMappedAddress, &RefVal::Addr(a), &t).unwrap()));
+    }
+    encode(if request { 0 } else { 1 }, 1, &t, &tlvs)
 }
 
 // ---------------------------------------------------------------------------------------------
